@@ -144,7 +144,9 @@ overload_tab::add_overload (selector sel, std::shared_ptr <builtin> b)
 {
   // Check someone didn't order overload for this type yet.
   for (auto const &ovl: m_overloads)
-    assert (std::get <0> (ovl) != sel);
+    if (std::get <0> (ovl) == sel)
+      throw std::runtime_error
+	("Can't merge overloads: a type is specialized twice");
 
   m_overloads.push_back (std::make_tuple (sel, b));
 }
